@@ -47,12 +47,12 @@ def run(tier, seed, res):
     res.coverage["exhaustive_subspace"] = ("15 instance specs with N <= 3 required releases (both modes, with/without IN bits, gathers), every order and every "
                                            "deal of the releases to {withheld, pre, thread 0, thread 1} where both threads release, plus one release on each of 3 threads when N == 3: all schedules")
     collect(res, wr)
-    per = 1500 if quick else 150000
+    per = 1500 if quick else 60000
     jobs = [dict(cmd=[b, "rc"], env={"RC_PARAMS": "seed=%d max_success=%d max_size=100" % (seed * 131 + i, per)}, tag="rc") for i in range(n)]
     wr = core.run_workers(PROP, jobs)
     res.absorb(wr, "rc")
     collect(res, wr)
-    rounds = 300 if quick else 60000   # per 2 threads; scaled down with the thread count (every round ends in a barrier)
+    rounds = 300 if quick else 15000   # per 2 threads; scaled down with the thread count (every round ends in a barrier)
     jobs = [dict(cmd=[b, "stress", str(t), str(max(25, rounds * 2 // t)), str(seed * 17 + t)], tag="stress", timeout=150 if quick else 1800) for t in (2, 4, 16)]
     wr = core.run_workers(PROP, jobs, max_parallel=1)
     res.absorb(wr, "stress")
